@@ -11,6 +11,8 @@ import Dtn7.Model.Fragment
 import Dtn7.Model.Reassemble
 import Dtn7.Lemmas.Fragment
 import Dtn7.Lemmas.FragReasm
+import Dtn7.Model.FragmentBundle
+import Dtn7.Lemmas.FragmentBundle
 import Dtn7.Gen.C09
 
 namespace Dtn7.Props.C09
@@ -227,6 +229,93 @@ theorem reassemble_inverts_any_order (x : In) (fs : List Frag) (hnf : x.isFragme
     (h : fragment Cfg.fixed x = .frags fs) (π : List RFrag) (hperm : π.Perm (fs.map Frag.toR)) :
     reassemble true π = .ok x.payload (x.blocks.map (·.type)) :=
   Lemmas.fragment_reassemble x fs hnf h _ ((Lemmas.perm_sortOff π).trans hperm) (Lemmas.sorted_sortOff π)
+
+/-! ### Composition with the bundle codec model: the size bound in real terms, without hypotheses
+
+`inOf b mtu` is the abstract input of a real bundle: every number is computed with the codec model's own
+encoders exactly as the Go code computes it (blocks re-encoded with CRC type 2, the payload block with
+an empty payload, the fragment primary block, the serialised bundle). `realFragment` is the bundle the
+loop of `Bundle.Fragment` assembles (`Bundle.fragmentOf`). -/
+
+open Dtn7.Bundle in
+/-- **The pricing hypotheses of `size_bound` hold for every bundle that can be serialised at all**
+(CRC types 0, 1, 2): re-encoding a block with CRC-32 never shortens it — the CRC field grows from 0/3
+to 5 bytes, everything else is unchanged — and the same for the payload block with an empty payload. -/
+theorem pricing_holds (b : Bundle) (mtu : Nat) (hs : b.serializable = true) :
+    (∀ k ∈ (inOf b mtu).blocks, k.actual ≤ k.priced) ∧ (inOf b mtu).pl.actual0 ≤ (inOf b mtu).pl.priced := by
+  have hk : ∀ c ∈ b.blocks, crcKnown c.crcT = true := by
+    intro c hc
+    simp only [Bundle.serializable, Bool.and_eq_true, List.all_eq_true] at hs
+    have := hs.2 c hc
+    simp only [Canonical.serializable, Bool.and_eq_true] at this
+    exact this.2
+  constructor
+  · intro k hkm
+    simp only [inOf, List.mem_map, List.mem_filter] at hkm
+    obtain ⟨c, ⟨hc, _⟩, rfl⟩ := hkm
+    exact Lemmas.actual_le_priced c (hk c hc)
+  · simp only [inOf]
+    cases hp : payloadBlock? b with
+    | none => simp
+    | some p =>
+      have hm : p ∈ b.blocks := List.mem_of_find?_eq_some hp
+      exact Lemmas.actual_le_priced { p with value := .payload [] } (hk p hm)
+
+open Dtn7.Bundle in
+/-- **Every fragment fits, in real terms**: for every serialisable bundle `b` of the codec model and
+every limit, if `Bundle.Fragment` (either variant of the code) returns fragments, each of them — the
+real bundle with fragment primary block, the blocks carried and the payload slice — serialises with the
+real encoders to at most `mtu` bytes. No pricing hypothesis is left: `fragSize` of the abstract model
+is proved equal to the real serialised length (`Lemmas.fragSize_eq_real`). -/
+theorem fragments_fit_mtu (c : Frag.Cfg) (b : Bundle) (mtu : Nat) (hs : b.serializable = true)
+    (fs : List Frag) (h : fragment c (inOf b mtu) = .frags fs) :
+    ∀ f ∈ fs, (serializeRaw (realFragment c b mtu f)).length ≤ mtu := by
+  intro f hf
+  obtain ⟨hblk, hpl⟩ := pricing_holds b mtu hs
+  have hsz := size_bound c (inOf b mtu) fs hblk hpl h f hf
+  have hloop := Lemmas.fragment_frags c _ fs h
+  obtain ⟨j, _, hj, _, _, rfl⟩ := Lemmas.loop_mem c _ _ _ _ _ _ hloop f hf
+  cases hp : payloadBlock? b with
+  | none =>
+    have : (inOf b mtu).payload = [] := by simp [inOf, hp]
+    rw [this] at hj
+    simp at hj
+  | some p =>
+    have he := Lemmas.fragSize_eq_real c b mtu j
+      ((inOf b mtu).payload.drop j |>.take ((inOf b mtu).mtu - overheadAt c (inOf b mtu) (extLen (inOf b mtu)).1 (extLen (inOf b mtu)).2 j))
+      p hp
+    have hfirst : (base c (inOf b mtu) + j == base c (inOf b mtu)) = decide (j = 0) := by
+      by_cases h0 : j = 0 <;> simp [h0]
+    simp only [realFragment, hfirst]
+    rw [← he]
+    exact hsz
+
+/-- **A bundle returned as itself fits, in real terms.** -/
+theorem self_fits_real (b : Dtn7.Bundle.Bundle) (mtu : Nat) (h : fragment Cfg.fixed (inOf b mtu) = .self) :
+    (Dtn7.Bundle.serializeRaw b).length ≤ mtu :=
+  self_fits (inOf b mtu) h
+
+/-- … and a serialisable bundle that fits and may be fragmented is returned as itself. -/
+theorem fits_returns_self_real (b : Dtn7.Bundle.Bundle) (mtu : Nat) (bs : List UInt8)
+    (hser : Dtn7.Bundle.serialize b = .ok bs) (hfit : bs.length ≤ mtu)
+    (hm : (inOf b mtu).mustNotFragment = false) : fragment Cfg.fixed (inOf b mtu) = .self := by
+  apply fits_returns_self _ hm
+  unfold Dtn7.Bundle.serialize at hser
+  split at hser
+  · simp only [Except.ok.injEq] at hser
+    subst hser
+    exact hfit
+  · simp at hser
+
+/-- Non-vacuity: a real bundle (replicated hop count block without CRC, 12 payload bytes, CRC-32 on the primary and
+payload block) that is cut into real fragments, each within the limit. -/
+example :
+    let b : Dtn7.Bundle.Bundle := ⟨⟨7, 0, 2, .ipn 2 1, .ipn 1 1, .ipn 1 1, 700000000000, 0, 3600000, 0, 0⟩,
+      [⟨2, 1, 0, .hop 10 3⟩, ⟨1, 0, 2, .payload [1, 2, 3, 4, 5, 6, 7, 8, 9, 10, 11, 12]⟩]⟩
+    (match fragment Cfg.fixed (inOf b 73) with
+      | .frags fs => fs.map fun f => ((Dtn7.Bundle.serializeRaw (realFragment Cfg.fixed b 73 f)).length, f.off, f.data.length)
+      | _ => []) = [(67, 0, 3), (67, 3, 3), (67, 6, 3), (67, 9, 3)] ∧
+    b.serializable = true ∧ (Dtn7.Bundle.serializeRaw b).length = 74 := by decide
 
 /-! ### The code before the repairs (`Cfg.old`): witnesses of D1 and D2 -/
 
